@@ -2,30 +2,41 @@
 # usage: confirm_seed.sh seeded/<id> [CHECKS...]
 # Independent confirmation of a seeded change: (1) patch applies to /repo HEAD, (2) builds, (3) existing test suite
 # passes with it (only the 3 known-bad tests fail), (4) the demonstration fails with it and passes without it,
-# (5) the given checks report a VIOLATION on it.  Writes seeded/<id>/confirm.txt.  Uses a scratch worktree under /tmp.
+# (5) the given checks report a VIOLATION on it.  Writes seeded/<id>/confirm.txt.  Uses scratch worktrees under /tmp.
+# The compiled extensions of the unchanged tree come from the wsbuild cache (harness/wsbuild.py; /repo's own .so files are
+# older than the fix: commits); a patch that touches C++/Cython sources triggers a full rebuild of the scratch worktree.
 D=$(readlink -f "$1"); shift
-W=/tmp/confirm-$$
+W=/tmp/confirm-$$; R=/tmp/confirm-ref-$$
 OUT="$D/confirm.txt"
+OV=$(cd /verif && /venv/bin/python harness/wsbuild.py 2>/dev/null | tail -1)
+[ -d "$OV/whatshap" ] || OV=$(ls -dt /var/tmp/whatshap-verif/overlay-* | head -1)
 {
 echo "confirmed at /repo $(git -C /repo rev-parse --short HEAD) on $(date -u +%FT%TZ)"
 git -C /repo worktree add -q --detach "$W" HEAD || exit 2
+git -C /repo worktree add -q --detach "$R" HEAD || exit 2
+(cd "$OV" && find . -name '*.so' -exec cp --parents {} "$W/" \; -exec cp --parents {} "$R/" \;)
 cd "$W"
 if git apply "$D/patch.diff"; then echo "patch applies: yes"; else echo "patch applies: NO"; fi
-SETUPTOOLS_SCM_PRETEND_VERSION=0.0.seed /venv/bin/python setup.py build_ext --inplace -j 16 > /tmp/confirm-build-$$.log 2>&1 && echo "builds: yes" || { echo "builds: NO"; tail -5 /tmp/confirm-build-$$.log; }
-rm -f /tmp/confirm-build-$$.log
-T=$(PYTHONPATH="$W" /venv/bin/python -m pytest -q -p no:cacheprovider --timeout=900 -q tests 2>&1 | tail -1)
-echo "test suite with change: $T"
-F=$(PYTHONPATH="$W" /venv/bin/python -m pytest -q -p no:cacheprovider --timeout=900 -q tests 2>&1 | grep ^FAILED | grep -v test_vcf_with_missing_headers | head -5)
+if git status --short | grep -qE '\.(cpp|h|pyx|pxd)$|setup\.py'; then
+  find . -name '*.so' -delete
+  SETUPTOOLS_SCM_PRETEND_VERSION=0.0.seed /venv/bin/python setup.py build_ext --inplace -j 16 > /tmp/confirm-build-$$.log 2>&1 && echo "builds: yes (compiled sources changed, rebuilt)" || { echo "builds: NO"; tail -5 /tmp/confirm-build-$$.log; }
+  rm -f /tmp/confirm-build-$$.log
+else
+  PYTHONPATH="$W" /venv/bin/python -c "import whatshap.core, whatshap.cli.phase" && echo "builds: yes (python only; extensions of the unchanged tree)" || echo "builds: NO"
+fi
+PYTHONPATH="$W" /venv/bin/python -m pytest -q -p no:cacheprovider --timeout=900 -q tests > /tmp/confirm-t-$$.log 2>&1
+echo "test suite with change: $(grep -E "[0-9]+ (passed|failed)" /tmp/confirm-t-$$.log | tail -1)"
+F=$(grep ^FAILED /tmp/confirm-t-$$.log | grep -v test_vcf_with_missing_headers | head -5); rm -f /tmp/confirm-t-$$.log
 [ -z "$F" ] && echo "unexpected test failures: none" || echo "unexpected test failures: $F"
 mkdir -p "$W/seed_out" && cp "$D"/demo*.py "$W/seed_out/"
 DEMO=$(ls "$W"/seed_out/demo*.py | head -1)   # demos locate test data relative to their own path in the worktree
 ( cd "$W" && PYTHONPATH="$W" timeout 900 /venv/bin/python "$DEMO" > /dev/null 2>&1 ); echo "demo with change: exit $?"
-( cd /tmp && PYTHONPATH=/repo timeout 900 /venv/bin/python "$DEMO" > /dev/null 2>&1 ); echo "demo without change: exit $?"
+( cd /tmp && PYTHONPATH="$R" timeout 900 /venv/bin/python "$DEMO" > /dev/null 2>&1 ); echo "demo without change: exit $?"
 cd /verif
-git -C /repo worktree remove --force "$W"
+git -C /repo worktree remove --force "$W"; git -C /repo worktree remove --force "$R"
 for P in "$@"; do
-  R=$(harness/tools/seedtest.sh "$D/patch.diff" "$P" 2>&1 | grep -E "^== |VIOLATION" | tr '\n' ' ')
-  echo "check $P on change: $R"
+  X=$(harness/tools/seedtest.sh "$D/patch.diff" "$P" 2>&1 | grep -E "^== |VIOLATION" | tr '\n' ' ')
+  echo "check $P on change: $X"
 done
 } > "$OUT" 2>&1
 cat "$OUT"
